@@ -259,7 +259,13 @@ impl Xot {
             ValueType::Attribute => self.append_attribute_node(parent, child),
             _ => {
                 self.append(parent, child)?;
-                Ok(child)
+                if self.is_removed(child) {
+                    // a text node that was consolidated into the text node
+                    // before it: that is the node the text lives in now
+                    Ok(self.last_child(parent).unwrap())
+                } else {
+                    Ok(child)
+                }
             }
         }
     }
